@@ -50,7 +50,7 @@ Step(e) ==
   CASE e.ev = "scenario" ->
          /\ cur' = 1 /\ rid' = 0 /\ tent' = 0 /\ usedTent' = FALSE
          /\ infl' = [x \in {} |-> {}] /\ last' = [x \in {} |-> 0] /\ opened' = {} /\ closed' = {}
-         /\ spath' = "p1" /\ rkind' = "" /\ rpath' = ""
+         /\ spath' = (IF Has(e, "path") THEN e.path ELSE "p1") /\ rkind' = "" /\ rpath' = ""
     [] e.ev = "open" ->
          /\ opened' = opened \cup {e.backend}
          /\ UNCHANGED <<cur, rid, tent, usedTent, infl, last, closed>> /\ UNCHANGED <<spath, rkind, rpath>>
